@@ -18,6 +18,10 @@ def run(ctx):
     extra = [] if q else ["--full"]
     ctx.harness("mask1", binp, ["replay-roll1", "--mode", "mask", "--in", r1["emitted"]] + extra + laws1(ctx))
     ctx.harness("mask2", binp, ["replay-roll2", "--mode", "mask", "--in", r2["emitted"]] + extra + laws2(ctx))
+    # random deep histories over a richer alphabet (-3..3 and nulls, length 12): in non-dyadic units the running
+    # sums carry rounding residue, which must not turn a required null into a number (or the reverse)
+    r3 = ctx.tlc("mask-sim", "MCRoll", "MCRoll_sim.cfg", sim=(40 if q else 1500, 13), workers=12, timeout=3000)
+    ctx.harness("mask-sim", binp, ["replay-roll1", "--mode", "mask", "--in", r3["emitted"]] + extra + laws1(ctx))
     # the traces bind the mask at every step of long histories as well
     ctx.record_and_trace("roll", binp, ["record-roll1", "--seed", str(ctx.seed * 100 + 5), "--runs", "3", "--steps",
                                         "200" if q else "1500"], "TraceRoll", 3)
